@@ -38,6 +38,7 @@ type Stats struct {
 	Hashes     []uint64         `json:"-"` // hashes of non-trivial cases (distinctness)
 	Hashes2    []uint64         `json:"-"` // second measure (e.g. interleavings)
 	Trouble    []string         `json:"trouble"` // harness trouble: leads to exit 2
+	Sites      []int32          `json:"sites,omitempty"` // yield sites (statements of the instrumented code) executed at least once
 }
 
 func NewStats() *Stats {
@@ -73,6 +74,7 @@ func (s *Stats) Merge(o *Stats) {
 	s.Hashes = append(s.Hashes, o.Hashes...)
 	s.Hashes2 = append(s.Hashes2, o.Hashes2...)
 	s.Trouble = append(s.Trouble, o.Trouble...)
+	s.Sites = append(s.Sites, o.Sites...)
 }
 
 // WriteWorker writes stats as JSON plus the hash lists in binary.
